@@ -769,9 +769,11 @@ func (s *State) applyFunction(name string, fn object.Object, args []object.Objec
 	}
 	if after != before {
 		log.Debugf("Cache miss for %s %v, %d get misses", function.CacheKey, args, after-before)
-		// Propagate the can't cache
+		// Propagate to the caller: its result depends on whatever made this call uncacheable.
 		if cantCache {
 			s.env.TriggerNoCache()
+		} else {
+			s.env.PropagateMiss()
 		}
 		return res
 	}
